@@ -128,6 +128,7 @@ type cmp struct {
 	x2e  map[*schema.X]*yang.Entry
 	// counters of what was actually compared
 	Nodes, Leaves, Lookups int
+	Special                map[string]int // leaves whose type chain ends in an enumeration, leafref, decimal64, union
 }
 
 func (c *cmp) bad(x *schema.X, class, f string, a ...any) {
@@ -214,6 +215,40 @@ func (c *cmp) compare(x *schema.X, e *yang.Entry) {
 			}
 			if t.HasDefault != x.T.HasDef || t.Default != x.T.Default {
 				c.bad(x, "type-default", "%s: type default %q/%v, reference %q/%v", p, t.Default, t.HasDefault, x.T.Default, x.T.HasDef)
+			}
+			if t.Enum != nil || len(x.T.Enums) > 0 {
+				var en []string
+				if t.Enum != nil {
+					en = t.Enum.Names()
+				}
+				we := append([]string{}, x.T.Enums...)
+				sort.Strings(we)
+				if strings.Join(en, " ") != strings.Join(we, " ") {
+					c.bad(x, "type-enum", "%s: enum members %v, reference %v", p, en, we)
+				}
+			}
+			switch {
+			case len(x.T.Enums) > 0:
+				c.Special["enumeration"]++
+			case x.T.Path != "":
+				c.Special["leafref"]++
+			case x.T.Frac > 0:
+				c.Special["decimal64"]++
+			case len(x.T.Members) > 0:
+				c.Special["union"]++
+			}
+			if t.Path != x.T.Path {
+				c.bad(x, "type-path", "%s: path %q, reference %q", p, t.Path, x.T.Path)
+			}
+			if int(t.FractionDigits) != x.T.Frac {
+				c.bad(x, "type-fraction-digits", "%s: fraction-digits %d, reference %d", p, t.FractionDigits, x.T.Frac)
+			}
+			var mk []string
+			for _, m := range t.Type {
+				mk = append(mk, m.Kind.String())
+			}
+			if strings.Join(mk, " ") != strings.Join(x.T.Members, " ") {
+				c.bad(x, "type-union-members", "%s: union members %v, reference %v", p, mk, x.T.Members)
 			}
 			got := append([]string{}, t.Pattern...)
 			want := append([]string{}, x.T.Patterns...)
@@ -531,7 +566,8 @@ func features(g *schema.Gen) []string {
 func Run(j *job.Job, s *job.Sink) {
 	for i := j.Start; i < j.Start+j.Count; i++ {
 		rng := prng.For(j.Seed, "tree", j.Family, i) // the same sets for every property
-		g := &schema.Gen{R: rng, Typedefs: true}
+		// one set in eight is allowed unknown or cyclic type references (the error side of C09)
+		g := &schema.Gen{R: rng, Typedefs: true, TypeErrors: rng.Intn(8) == 0}
 		g.Build()
 		res := &schema.Resolver{Mods: g.Mods}
 		res.Resolve()
@@ -546,7 +582,7 @@ func Run(j *job.Job, s *job.Sink) {
 		for _, f := range features(g) {
 			s.Count("feature:"+f, 1)
 		}
-		c := &cmp{seen: map[*yang.Entry]string{}, x2e: map[*schema.X]*yang.Entry{}}
+		c := &cmp{seen: map[*yang.Entry]string{}, x2e: map[*schema.X]*yang.Entry{}, Special: map[string]int{}}
 		func() {
 			defer func() {
 				if rec := recover(); rec != nil {
@@ -581,6 +617,7 @@ func Run(j *job.Job, s *job.Sink) {
 			switch {
 			case len(res.Errs) > 0 && len(errs) > 0:
 				s.Count("both_report_errors", 1)
+				s.Count("both_report_errors:"+res.Errs[0].Class, 1)
 				return
 			case len(res.Errs) > 0:
 				c.bad(nil, "unreported:"+res.Errs[0].Class, "Process is clean, reference expects: %v", res.Errs[0])
@@ -613,6 +650,9 @@ func Run(j *job.Job, s *job.Sink) {
 		}()
 		s.Count("nodes_compared", int64(c.Nodes))
 		s.Count("leaf_types_compared", int64(c.Leaves))
+		for k, v := range c.Special {
+			s.Count("leaf_types_compared:"+k, int64(v))
+		}
 		s.Count("find_lookups", int64(c.Lookups))
 		reported := map[string]bool{}
 		for k := range c.out {
